@@ -13,7 +13,9 @@
    with pairwise distinct parameters; the type of every let variable, label, goto target,
    argument position and definition parameter is declared (a clause parameter that is never used may have an
    undeclared type: the checker's output is not closed under the types it mentions, C15).  All term forms (data and codata, labels,
-   consumer arguments).  Excluded: calls of `main` (known finding call-to-main), a `main` whose body is
+   consumer arguments), calls of `main` included (former finding call-to-main, repaired in /repo by f929eb7: the
+   clause `negb (f = "main") || calls_main_prog p` of a call holds of every call inside a definition of p; when main is
+   called its declared return type must be i64 as well).  Excluded: a `main` whose body is
    not of type i64 (former finding main-non-integer-result: the exit continuation of compile_main is typed with the
    body's annotation; since fix 5b8c76f of /repo the checker rejects such a main, so for CHECKED programs this
    clause is implied: Proof/Fun2CoreTyChecked.v prog_tyguard_src).
@@ -75,7 +77,7 @@ Section TyGuard.
         tg G bound && has_ty bound (compile_ty vty) && tyd (compile_ty vty)
         && tg (mkcb (new_id v) CPrd (compile_ty vty) :: G) body && same_ty body ty
     | FCall f args ret =>
-        negb (String.eqb f "main")
+        (negb (String.eqb f "main") || calls_main_prog p)
         && match ffind_def p f, ret with
            | Some d, Some r =>
                tg_args args (compile_ctx (fdctx d))
@@ -233,7 +235,11 @@ Section TyGuard.
   Definition def_tyguard (d : fdef) : bool :=
     nodup_str (fvars (fdctx d)) && ctx_tyd (compile_ctx (fdctx d))
     && tg (compile_ctx (fdctx d)) (fdbody d)
-    && (if String.eqb (fdname d) "main" then has_ty (fdbody d) CI64
+    && (if String.eqb (fdname d) "main"
+        then has_ty (fdbody d) CI64
+             (* when main is called (fix f929eb7) it is compiled like any other definition, with a return continuation
+                of its declared return type; the checker demands i64 of it since fix 5b8c76f *)
+             && (negb (calls_main_prog p) || cty_eqb (compile_ty (fdret d)) CI64)
         else has_ty (fdbody d) (compile_ty (fdret d)) && tyd (compile_ty (fdret d))).
 End TyGuard.
 
@@ -250,7 +256,7 @@ Definition decls_tyguard (p : fcprog) : bool :=
   && nodup_str (map fdname (fcpdefs p)).
 
 Definition prog_tyguard (p : fcprog) : bool :=
-  decls_tyguard p && negb (calls_main_prog p) && forallb (def_tyguard p (cdata_of p) (ccodata_of p)) (fcpdefs p).
+  decls_tyguard p && forallb (def_tyguard p (cdata_of p) (ccodata_of p)) (fcpdefs p).
 
 (* ---------- the witness of the former finding main-non-integer-result (corpus/fun/c12_main_nonint.sc; the source is
    rejected by the checker since fix 5b8c76f, the annotated form is what the checker before the fix produced):
